@@ -84,6 +84,7 @@ const (
 	KWWrite
 	KAwait
 	KClose
+	KStore
 )
 
 // RunJob executes one job on the runner and calls f for every schedule executed.
